@@ -400,6 +400,9 @@ func ruleAbsentForms(c *Ctx, r *Rep, tier string) {
 					dom = true
 				}
 			}
+			if !dom && seqLengthNonZeroAt(c, rfn, call.Block()) {
+				dom = true // the guard written on the length (SEQ-ABSENT decides the general case)
+			}
 			if !dom {
 				why = fmt.Sprintf("the CIGAR/sequence length test at %s also runs when SEQ is *: records without a stored sequence but with a query-consuming CIGAR (secondary alignments), which MarshalSAM and BAM produce, are refused", c.Pos(call.Pos()))
 			}
